@@ -199,30 +199,9 @@ def run(ctx):
               win_cases.append(('planted_%s_%d' % (name, planted), w, st))
     ctx.extra['planted_cases'] = planted
     # SCALE: an operation whose START and END are as many records apart as a size-like constant of the parser's sources
-    # suggests (one less, exactly, one more ...): the stream is processed to its end and the operation's trace comes out
-    from .encode import make_event
-    from pykdebugparser.traces_parser import TracesParser
-    from .pairing import default_codes
-    codes_ = default_codes()
-    n2i = {n: i for i, n in codes_.items() if i & 3 == 0}
-    nlong = 0
-    for h in mine.size_hints(256):
-        for n_ in (h - 2, h - 1, h, h + 1, h + 2):
-            p_ = TracesParser(codes_, {}, {})
-            inert = [make_event(7, n2i['TRACE_INFO_STRING'], 9, (1, 2, 3, 4)), make_event(7, n2i['BSC_getpid'] | 3, 9, (0, 0, 0, 0))]
-            nlong += 1
-            try:
-                p_.feed(make_event(5, n2i['BSC_read'] | 1, 9, (3, 4, 5, 6)))
-                for k_ in range(n_ - 1):                      # n_ records in the window: START, n_ - 2 inner ones ..., END
-                    p_.feed(inert[k_ & 1])
-                r = p_.feed(make_event(9, n2i['BSC_read'] | 2, 9, (0, 5, 0, 0)))
-                if r is None or len(r.ktraces) != n_ + 1:
-                    ctx.violation('C07/long-window-lost', 'read() with %d records of its thread before its END: %s'
-                                  % (n_ - 1, 'no trace' if r is None else 'window of %d records' % len(r.ktraces)), {'kind': 'code->spec', 'stream': []})
-            except Exception as ex:
-                ctx.violation('C07/long-window-raised@%s' % type(ex).__name__, 'read() with %d records of its thread before its END raised %r'
-                              % (n_ - 1, ex), {'kind': 'code->spec', 'stream': []})
-    ctx.extra['long_windows'] = nlong
+    # suggests: nothing raises (that the trace comes out with its whole window is C04's statement, checked there)
+    from .pairing import long_windows
+    long_windows(ctx, 'C07', report_lost=False, report_raised=True)
     # C07 pins: nothing raises, a missing piece is an empty / omitted FIELD.  Which traces appear and what their windows hold
     # is C04's statement (Pairing_Val sees those deviations too; they are left to C04's check)
     own = lambda cl, cls: cl in ('raised', 'fields', 'shape')
